@@ -74,6 +74,8 @@ type State struct {
 	choices []string // log of concrete choices (vChoice etc.)
 	locks   map[*Object]int
 	trace   []string
+	finalized bool
+	expectPanic string // set by vExpectPanic: a Go panic is the required outcome of this path
 	names   map[string]int // per-path counters for repeated input names (immutable, copied on write)
 }
 
@@ -212,7 +214,7 @@ func (e *Engine) newState() *State {
 func (e *Engine) clone(st *State) *State {
 	e.stateSeq++
 	n := &State{id: e.stateSeq, mem: make(map[*Object]*cellBlock, len(st.mem)), status: st.status,
-		model: st.model, atEntry: st.atEntry, retFrame: st.retFrame, steps: st.steps, uncertain: st.uncertain, fail: st.fail, ret: st.ret, names: st.names}
+		model: st.model, atEntry: st.atEntry, retFrame: st.retFrame, steps: st.steps, uncertain: st.uncertain, fail: st.fail, ret: st.ret, names: st.names, expectPanic: st.expectPanic}
 	for k, v := range st.mem {
 		n.mem[k] = v
 	}
